@@ -509,13 +509,13 @@ func c34SealedInner() *explore.Scenario {
 }
 
 func c34Scenarios(thorough bool) []*explore.Scenario {
-	return []*explore.Scenario{c34Hellos(thorough), c34Flights(), c34TwoHellos(), c34SealedInner(), c34ShortProtectedRecords()}
+	return []*explore.Scenario{c34Hellos(thorough), c34Flights(), c34TwoHellos(), c34SealedInner(), c34ShortProtectedRecords(), c34PSKShapes()}
 }
 
 func init() {
 	register(&Prop{ID: "C34", Level: "exploration", Variant: "A", Scenarios: c34Scenarios,
 		Run: func(c *explore.Check, thorough bool) {
-			c.Rule = "ClientHello of every discovered ID, custom specs, real-ECH outer hellos (server holding the matching key) and a PSK hello x server {with, without ECH keys} x mutation {every byte position (all for <= 300 B, else head/stride/tail) x values {00, ff, ^01 (+7f, 80)}, truncation to every such length, every extension body truncated to every length with all outer prefixes fixed, every key share resized to {0,1,31,32,33,64,65,100,600,1183,1184,1185,1215,1217} bytes with consistent prefixes}; complete flights of 6 clients x {1.3,1.2} x client auth in which the client inserts an extra handshake message of type {8,25,99,4,24,1,11,20} with 0/2/300-byte body before/after each of its own messages (client-side verif hook); two-hello inputs: a first hello without a usable share (forcing a HelloRetryRequest) and a second hello, each carrying one of 5 ECH extension shapes {absent, inner marker, outer all-zero, outer GREASE-like, real outer} x 4 second-hello variations x server with/without ECH keys; correctly HPKE-sealed ECH payloads around inner hellos assembled by the harness: 10 ech_outer_extensions shapes x 3 paddings x 3 inner ECH markers x 3 truncations x {once, twice}; every TLS <= 1.2 suite of the server's table (stream, CBC, AEAD; RSA and ECDHE key exchange) x every version it exists in x record type {handshake, application data, alert} x every record length 0..80 sent right after a scripted ClientHello, ClientKeyExchange and ChangeCipherSpec. Oracle: server Handshake/Read return without panic (watchdog 60 s). distinct = case"
+			c.Rule = "ClientHello of every discovered ID, custom specs, real-ECH outer hellos (server holding the matching key) and a PSK hello x server {with, without ECH keys} x mutation {every byte position (all for <= 300 B, else head/stride/tail) x values {00, ff, ^01 (+7f, 80)}, truncation to every such length, every extension body truncated to every length with all outer prefixes fixed, every key share resized to {0,1,31,32,33,64,65,100,600,1183,1184,1185,1215,1217} bytes with consistent prefixes}; complete flights of 6 clients x {1.3,1.2} x client auth in which the client inserts an extra handshake message of type {8,25,99,4,24,1,11,20} with 0/2/300-byte body before/after each of its own messages (client-side verif hook); two-hello inputs: a first hello without a usable share (forcing a HelloRetryRequest) and a second hello, each carrying one of 5 ECH extension shapes {absent, inner marker, outer all-zero, outer GREASE-like, real outer} x 4 second-hello variations x server with/without ECH keys; correctly HPKE-sealed ECH payloads around inner hellos assembled by the harness: 10 ech_outer_extensions shapes x 3 paddings x 3 inner ECH markers x 3 truncations x {once, twice}; every TLS <= 1.2 suite of the server's table (stream, CBC, AEAD; RSA and ECDHE key exchange) x every version it exists in x record type {handshake, application data, alert} x every record length 0..80 sent right after a scripted ClientHello, ClientKeyExchange and ChangeCipherSpec; a returning client's second ClientHello (genuine ticket of this server) with 6 identity-list shapes (junk before / after / around the ticket) x 0..3 binders x 2 binder lengths. Oracle: server Handshake/Read return without panic (watchdog 60 s). distinct = case"
 			c.Assumptions = []string{"small-scope: one mutation per execution from a fixed menu", "QUIC server input is not covered"}
 			runAll(c, c34Scenarios(thorough), 0)
 			c.Gate(c.Total.Counters["server_returned"] > 50000, "non-vacuity: %d server runs", c.Total.Counters["server_returned"])
@@ -639,6 +639,90 @@ func c34ShortProtectedRecords() *explore.Scenario {
 			r.Nontrivial = true
 			r.Class = fmt.Sprintf("%s|%04x|%d", s.name, vers, typ)
 			r.Obs = strings.Join(seen, ">")
+			return
+		},
+	}
+}
+
+// c34PSKShapes — a returning client: after an honest first TLS 1.3 connection the client holds a
+// genuine ticket of this very server. Its second ClientHello is re-assembled with every shape of
+// the pre_shared_key extension from a small menu: identity lists that put junk before / after /
+// around the genuine ticket x binder lists of 0..3 entries (32 or 48 bytes). The server may refuse
+// or fall back to a full handshake, it may not panic.
+func c34PSKShapes() *explore.Scenario {
+	var (
+		once  sync.Once
+		base  *wire.Hello
+		ident []byte
+		gate  string
+	)
+	prepare := func() {
+		cfg := peer.ClientConfig("example.com")
+		cfg.ClientSessionCache = tls.NewLRUClientSessionCache(4)
+		scfg := peer.ServerConfig(peer.Fix().ECDSA, peer.Fix().Public)
+		scfg.NextProtos = []string{"h2", "http/1.1"}
+		if w := peer.Run(cfg, tls.HelloGolang, scfg, peer.Opts{Echo: true}); !(w.OK() && w.EchoOK) {
+			gate = fmt.Sprintf("first connection failed: %v / %v", w.CErr, w.SErr)
+			return
+		}
+		stream, _, _, _ := firstFlight(cfg, tls.HelloGolang, nil)
+		msg, _, err := wire.FirstFlightHello(stream)
+		if err != nil {
+			gate = "no second hello: " + err.Error()
+			return
+		}
+		h, err := wire.ParseClientHello(msg)
+		if err != nil || h.Find(41) == nil {
+			gate = "the second hello carries no pre_shared_key extension"
+			return
+		}
+		p, err := wire.ParsePSK(h.Find(41).Body)
+		if err != nil || len(p.Identities) != 1 {
+			gate = "unexpected pre_shared_key shape"
+			return
+		}
+		base, ident = h, p.Identities[0]
+	}
+	idShapes := []string{"real", "junk,real", "real,junk", "junk,junk,real", "junk", "real,real"}
+	return &explore.Scenario{
+		Name:     "returning-client-pre-shared-key-shapes",
+		Watchdog: 60 * time.Second, HangSig: "C34|hang",
+		Run: func(x *explore.X) (r explore.Result) {
+			once.Do(prepare)
+			if gate != "" {
+				r.Violate("INFRA|c34-psk-material", "%s", gate)
+				return
+			}
+			ids := idShapes[x.Choose("identities", len(idShapes))]
+			nb := x.Choose("binders", 4)
+			blen := []int{32, 48}[x.Choose("binder-length", 2)]
+			var idv, bv []byte
+			for _, k := range strings.Split(ids, ",") {
+				id := ident
+				if k == "junk" {
+					id = rep(0x6a, 40)
+				}
+				idv = append(idv, byte(len(id)>>8), byte(len(id)))
+				idv = append(idv, id...)
+				idv = append(idv, 0, 0, 0, 9)
+			}
+			for i := 0; i < nb; i++ {
+				bv = append(bv, byte(blen))
+				bv = append(bv, rep(byte(0xb0+i), blen)...)
+			}
+			body := append([]byte{byte(len(idv) >> 8), byte(len(idv))}, idv...)
+			body = append(body, byte(len(bv)>>8), byte(len(bv)))
+			body = append(body, bv...)
+			what := fmt.Sprintf("identities [%s], %d binder(s) of %d bytes", ids, nb, blen)
+			stream := recordOf(rebuildHello(base, map[uint16][]byte{41: body}))
+			err, pm := serveBytes(stream, false)
+			r.Nontrivial = true
+			r.Class = what
+			if pm != "" {
+				r.Violate("C34|server-panic|psk-shape|"+errClass(fmt.Errorf("%s", firstLineOf(pm))), "%s: the server panicked: %s", what, truncStr(pm, 400))
+			}
+			r.Count("psk_shapes_served", 1)
+			r.Obs = "serr=" + truncStr(errClass(err), 60)
 			return
 		},
 	}
